@@ -161,6 +161,8 @@ pub mod command;
 pub mod testing;
 #[cfg(feature = "typegen")]
 pub mod typegen;
+#[cfg(crux_verif)]
+pub mod verif;
 
 mod capabilities;
 mod core;
